@@ -1,24 +1,20 @@
 #!/bin/bash
-# tools/sweep_mutants.sh [dir] — apply every staged mutant to /repo in turn, run its property's quick check,
-# record exit code and signatures in /verif/.build/mutant_sweep.jsonl, revert.
-D=${1:-/verif/seeded_staging}
+# tools/sweep_mutants.sh — apply every seeded change (/verif/seeded/<ID>-mN/patch.diff) to /repo in turn, run its
+# property's quick check, record exit code and signatures in /verif/.build/mutant_sweep.jsonl, revert.
 OUT=/verif/.build/mutant_sweep.jsonl
 : > $OUT
 cd /repo && git diff --quiet || { echo "repo dirty"; exit 9; }
-for dir in $D/C*; do
-  ID=$(basename $dir)
-  for diff in $dir/m*.diff; do
-    M=$(basename $diff .diff)
-    cd /repo
-    if ! git apply "$diff" 2>/dev/null; then
-      echo "{\"id\":\"$ID\",\"m\":\"$M\",\"status\":\"apply-failed\"}" >> $OUT; continue
-    fi
-    LOG=/verif/.build/mut_$ID$M.log
-    (cd /verif && ./check $ID quick > $LOG 2>&1); RC=$?
-    git -C /repo checkout -- .
-    SIGS=$(grep -E "^  signature:" $LOG | sed 's/^  signature: //' | sort -u | head -8 | python3 -c "import sys,json; print(json.dumps([l.strip() for l in sys.stdin]))")
-    echo "{\"id\":\"$ID\",\"m\":\"$M\",\"exit\":$RC,\"signatures\":$SIGS}" >> $OUT
-    echo "$ID/$M exit=$RC $SIGS" | cut -c1-250
-  done
+for dir in /verif/seeded/C*; do
+  NAME=$(basename $dir); ID=${NAME%%-*}; M=${NAME##*-}
+  cd /repo
+  if ! git apply "$dir/patch.diff" 2>/dev/null; then
+    echo "{\"id\":\"$ID\",\"m\":\"$M\",\"status\":\"apply-failed\"}" >> $OUT; continue
+  fi
+  LOG=/verif/.build/mut_$ID$M.log
+  (cd /verif && DGV_CASE_DEADLINE=${DGV_CASE_DEADLINE:-60} ./check $ID quick > $LOG 2>&1); RC=$?
+  git -C /repo checkout -- .
+  SIGS=$(grep -E "^  signature:" $LOG | sed 's/^  signature: //' | sort -u | head -8 | python3 -c "import sys,json; print(json.dumps([l.strip() for l in sys.stdin]))")
+  echo "{\"id\":\"$ID\",\"m\":\"$M\",\"exit\":$RC,\"signatures\":$SIGS}" >> $OUT
+  echo "$ID/$M exit=$RC $SIGS" | cut -c1-250
 done
 (cd /verif/harness && cargo build --offline >/dev/null 2>&1)
